@@ -272,6 +272,10 @@ theorem replace_quote_head (Z : List Char) (f : Nat) :
     replaceAux pfvL pvL (f + 1) ('"' :: Z) = '"' :: replaceAux pfvL pvL f Z := by
   simp [replaceAux, pfvL, pvL, stripPrefix?]
 
+theorem replace_squote_head (Z : List Char) (f : Nat) :
+    replaceAux pfvL pvL (f + 1) ('\'' :: Z) = '\'' :: replaceAux pfvL pvL f Z := by
+  simp [replaceAux, pfvL, pvL, stripPrefix?]
+
 /-- the last character of `str.replace(…)` is the last character of the text, when that is not the end of
 an occurrence -/
 theorem replaceAux_getLast (fuel : Nat) : ∀ (s : List Char) (c : Char), c ≠ 'n' →
@@ -389,6 +393,17 @@ theorem names_last : Marker.names.all (fun n =>
     n.toList.getLast? != none && n.toList.head? != some '"' && n.toList.head? != none) = true := by
   decide
 
+theorem names_head_sq : Marker.names.all (fun n => n.toList.head? != some '\'') = true := by
+  decide
+
+/-- the two quote characters of `_quoted` -/
+def IsQ (q : Char) : Prop := q = '"' ∨ q = '\''
+
+theorem quoteOf_toList (v : String) : ∃ q, IsQ q ∧ (quoteOf v).toList = [q] := by
+  rcases quoteOf_cases v with h | h
+  · exact ⟨'"', Or.inl rfl, by rw [h]; decide⟩
+  · exact ⟨'\'', Or.inr rfl, by rw [h]; decide⟩
+
 /-- a text `P ␣ …` with `P` one of the two python names, read as one item, is an item on `P` -/
 theorem parseText_prefix (text : String) (P : List Char) (W : List Char) (nm : String)
     (hP : (P = pvL ∧ nm = "python_version") ∨ (P = pfvL ∧ nm = "python_full_version"))
@@ -430,14 +445,18 @@ theorem parseText_prefix (text : String) (P : List Char) (W : List Char) (nm : S
 /-- a text `"… L` read as one item: the item is `"value" op name`, and the name ends the text when the text does
 not end with a blank -/
 theorem parseText_quoted (text : String) (A : List Char) (c : Char) (hc1 : c ≠ ' ') (hc2 : c ≠ '\t')
-    (hT : text.toList = '"' :: (A ++ [c])) (n op v : String) (sw : Bool)
+    (q : Char) (hq : IsQ q)
+    (hT : text.toList = q :: (A ++ [c])) (n op v : String) (sw : Bool)
     (h : parseText text = .ok (.one (.item n op v sw))) : n.toList <:+ text.toList := by
   obtain ⟨ws, s, r3, hws, hr3, hsplit, hmem, h1, h2⟩ := parseText_one_item _ _ _ _ _ h
-  have hwn : ws = [] := ws_nil ws s _ '"' (by rw [← hT, hsplit]) hws (by decide) (by decide)
+  have hwn : ws = [] := ws_nil ws s _ q (by rw [← hT, hsplit]) hws
+    (by rcases hq with rfl | rfl <;> decide) (by rcases hq with rfl | rfl <;> decide)
   subst hwn
   simp only [List.nil_append] at hsplit
   have hnl := List.all_eq_true.1 names_last n hmem
   simp only [Bool.and_eq_true, bne_iff_ne, ne_eq] at hnl
+  have hsq := List.all_eq_true.1 names_head_sq n hmem
+  simp only [bne_iff_ne, ne_eq] at hsq
   cases sw with
   | false =>
     obtain ⟨_, t, ht⟩ := h1 rfl
@@ -448,7 +467,9 @@ theorem parseText_quoted (text : String) (A : List Char) (c : Char) (hc1 : c ≠
       | nil => exact absurd (by rw [hn]; rfl) hnl.2
       | cons a as => rfl
     rw [hT] at hh
-    exact hnl.1.2 hh.symm
+    rcases hq with rfl | rfl
+    · exact hnl.1.2 hh.symm
+    · exact hsq hh.symm
   | true =>
     obtain ⟨_, pre, hpre⟩ := h2 rfl
     have hr3n : r3 = [] := by
@@ -458,7 +479,7 @@ theorem parseText_quoted (text : String) (A : List Char) (c : Char) (hc1 : c ≠
         rw [List.concat_eq_append] at hr'
         have hl := congrArg List.getLast? (hsplit.symm.trans hT)
         rw [hpre, hr', show pre ++ n.toList ++ (r' ++ [d]) = (pre ++ n.toList ++ r') ++ [d] by simp,
-          List.getLast?_concat, show '"' :: (A ++ [c]) = ('"' :: A) ++ [c] by simp, List.getLast?_concat] at hl
+          List.getLast?_concat, show q :: (A ++ [c]) = (q :: A) ++ [c] by simp, List.getLast?_concat] at hl
         have hd : d = c := by simpa using hl
         rcases hr3 d (by rw [hr']; simp) with h | h
         · exact hc1 (hd ▸ h)
@@ -474,12 +495,13 @@ theorem reparse_name (ms : Single) (hname : ms.name = "python_full_version") (n 
   have hq2 : (" \"" : String).toList = [' ', '"'] := by decide
   have hq3 : ("\" " : String).toList = ['"', ' '] := by decide
   have hsp : (" " : String).toList = [' '] := by decide
+  obtain ⟨q, hq, hqv⟩ := quoteOf_toList ms.value
   cases hsw : ms.swapped with
   | false =>
     have hstr : (leafText ms.name ms.op ms.value ms.swapped).toList =
-        pfvL ++ ' ' :: (ms.op.toList ++ ' ' :: '"' :: (ms.value.toList ++ ['"'])) := by
-      simp [leafText, hsw, hname, String.toList_append, hq1, hq2, hsp, pfvL_eq, pfvL]
-    generalize hY : ms.op.toList ++ ' ' :: '"' :: (ms.value.toList ++ ['"']) = Y at hstr
+        pfvL ++ ' ' :: (ms.op.toList ++ ' ' :: q :: (ms.value.toList ++ [q])) := by
+      simp [leafText, hsw, hname, String.toList_append, hqv, hsp, pfvL_eq, pfvL]
+    generalize hY : ms.op.toList ++ ' ' :: q :: (ms.value.toList ++ [q]) = Y at hstr
     have hYl : 3 ≤ Y.length := by rw [← hY]; simp; omega
     rcases pyRewrite_shape ms with hT | ⟨s1, k, zs, hs1, hk, hT⟩
     · rw [hstr] at hT
@@ -504,10 +526,10 @@ theorem reparse_name (ms : Single) (hname : ms.name = "python_full_version") (n 
           (by rw [hT]; simp) _ _ _ _ h)
   | true =>
     have hstr : (leafText ms.name ms.op ms.value ms.swapped).toList =
-        '"' :: ((ms.value.toList ++ '"' :: ' ' :: (ms.op.toList ++ ' ' ::
+        q :: ((ms.value.toList ++ q :: ' ' :: (ms.op.toList ++ ' ' ::
           ['p','y','t','h','o','n','_','f','u','l','l','_','v','e','r','s','i','o'])) ++ ['n']) := by
-      simp [leafText, hsw, hname, String.toList_append, hq1, hq3, hsp, pfvL_eq, pfvL]
-    generalize hA : (ms.value.toList ++ '"' :: ' ' :: (ms.op.toList ++ ' ' ::
+      simp [leafText, hsw, hname, String.toList_append, hqv, hsp, pfvL_eq, pfvL]
+    generalize hA : (ms.value.toList ++ q :: ' ' :: (ms.op.toList ++ ' ' ::
           ['p','y','t','h','o','n','_','f','u','l','l','_','v','e','r','s','i','o'])) = A at hstr
     have hAl : 3 ≤ A.length := by rw [← hA]; simp; omega
     have hmem : n ∈ names := by
@@ -515,10 +537,10 @@ theorem reparse_name (ms : Single) (hname : ms.name = "python_full_version") (n 
       exact hm
     rcases pyRewrite_shape ms with hT | ⟨s1, k, zs, hs1, hk, hT⟩
     · rw [hstr] at hT
-      have hsuf := parseText_quoted _ A 'n' (by decide) (by decide) hT _ _ _ _ h
+      have hsuf := parseText_quoted _ A 'n' (by decide) (by decide) q hq hT _ _ _ _ h
       have hsuf2 : pfvL <:+ (pyRewrite ms).toList := by
         rw [hT, ← hA]
-        exact ⟨'"' :: (ms.value.toList ++ '"' :: ' ' :: (ms.op.toList ++ [' '])), by simp [pfvL]⟩
+        exact ⟨q :: (ms.value.toList ++ q :: ' ' :: (ms.op.toList ++ [' '])), by simp [pfvL]⟩
       have hor := List.suffix_or_suffix_of_suffix hsuf hsuf2
       have := List.all_eq_true.1 names_suffix_pfv n hmem
       simp only [Bool.or_eq_true, Bool.not_eq_true', Bool.or_eq_false_iff, beq_iff_eq] at this
@@ -529,25 +551,29 @@ theorem reparse_name (ms : Single) (hname : ms.name = "python_full_version") (n 
       · exact Or.inr this
     · exfalso
       -- the text is `"…"`: no name ends it
-      have hs1q : ∃ Z', s1 = ['"'] ++ Z' ∧ 3 ≤ Z'.length := by
+      have hs1q : ∃ Z', s1 = [q] ++ Z' ∧ 3 ≤ Z'.length := by
         rcases hs1 with hs1 | hs1
         · exact ⟨A ++ ['n'], by rw [hs1, hstr]; rfl, by simp; omega⟩
         · rw [hstr] at hs1
-          have hlen : ('"' :: (A ++ ['n'])).length + 1 = (A.length + 2) + 1 := by simp
-          rw [hlen, replace_quote_head] at hs1
-          exact ⟨_, by rw [hs1]; rfl, replaceAux_len _ _ 3 (by simp [pvL]) _ _ (by simp; omega)⟩
+          have hlen : (q :: (A ++ ['n'])).length + 1 = (A.length + 2) + 1 := by simp
+          rw [hlen] at hs1
+          rcases hq with rfl | rfl
+          · rw [replace_quote_head] at hs1
+            exact ⟨_, by rw [hs1]; rfl, replaceAux_len _ _ 3 (by simp [pvL]) _ _ (by simp; omega)⟩
+          · rw [replace_squote_head] at hs1
+            exact ⟨_, by rw [hs1]; rfl, replaceAux_len _ _ 3 (by simp [pvL]) _ _ (by simp; omega)⟩
       obtain ⟨Z', hs1', hZ'⟩ := hs1q
-      have hk' := take_keep ['"'] Z' k (by omega)
+      have hk' := take_keep [q] Z' k (by omega)
       rw [hs1', hk'] at hT
-      have hT' : (pyRewrite ms).toList = '"' :: ((Z'.take (Z'.length - k) ++ zs) ++ ['"']) := by
+      have hT' : (pyRewrite ms).toList = q :: ((Z'.take (Z'.length - k) ++ zs) ++ ['"']) := by
         rw [hT]; simp
-      have hsuf := parseText_quoted _ _ '"' (by decide) (by decide) hT' _ _ _ _ h
+      have hsuf := parseText_quoted _ _ '"' (by decide) (by decide) q hq hT' _ _ _ _ h
       have hnl := List.all_eq_true.1 names_last n hmem
       simp only [Bool.and_eq_true, bne_iff_ne, ne_eq] at hnl
       obtain ⟨pre, hpre⟩ := hsuf
       have hl := congrArg List.getLast? hpre
-      rw [hT', show '"' :: ((Z'.take (Z'.length - k) ++ zs) ++ ['"']) =
-        ('"' :: (Z'.take (Z'.length - k) ++ zs)) ++ ['"'] by simp, List.getLast?_concat, List.getLast?_append] at hl
+      rw [hT', show q :: ((Z'.take (Z'.length - k) ++ zs) ++ ['"']) =
+        (q :: (Z'.take (Z'.length - k) ++ zs)) ++ ['"'] by simp, List.getLast?_concat, List.getLast?_append] at hl
       cases hg : n.toList.getLast? with
       | none => exact hnl.1.1.2 hg
       | some x =>
